@@ -45,6 +45,7 @@ def gen_script(ck, x, slot, tid, rnd, n_iter, wl, race_handles=(), extra=None):
     def add(req, chk=None, dep=None):
         if dep is None:      # a step depends on every earlier step of this thread whose result it references
             refs = [int(v[1:].split('.')[0]) for v in _strings(req) if v.startswith('$')]; dep = [r for r in refs if r != 0]
+            if req['fn'] in ('C_Sign', 'C_Verify', 'C_Encrypt', 'C_Decrypt', 'C_Digest') and S and S[-1]['fn'] == req['fn'] + 'Init': dep.append(len(S) - 1)      # a one-shot call continues the Init in front of it
         S.append(req); E.append((chk, dep) if chk is not None else None); return len(S) - 1
     so = add({'fn': 'C_OpenSession', 'slot': slot}, ('ok',)); sref = '$%d.h' % so
     if wl == 'destroy-race':
@@ -321,8 +322,9 @@ def lin_step(state, op, res):
         rest = sess - {op[1]}
         if not rest: return [(None, rest, frozenset())]      # closing the last session of the token logs it out; no session object can remain
         return [(login, rest, frozenset(o for o in objs if o[2] != op[1]))]
-    if k == 'login':
-        if login is None: return [('U', sess, objs)] if ok else []
+    if k == 'login':      # ('login',) = the user, ('login', 'S') = the security officer (all sessions of these histories are read-write)
+        who = op[1] if len(op) > 1 else 'U'
+        if login is None: return [(who, sess, objs)] if ok else []
         return [] if ok else [state]
     if k == 'logout':      # the property does not say that logging out of a public session must fail (the library answers CKR_OK)
         if ok: return [(None, sess, frozenset(o for o in objs if not o[1]))]
@@ -342,8 +344,8 @@ def lin_step(state, op, res):
         return [] if ok else [state]
     if k == 'info':
         if not ok: return []
-        want_user = login == 'U'
-        return [state] if (res.get('state') in (1, 3)) == want_user else []
+        st = res.get('state')
+        return [state] if ((st in (1, 3)) if login == 'U' else (st == 4) if login == 'S' else (st in (0, 2))) else []
     return [state]
 
 def lin_free(state, op):
@@ -351,7 +353,7 @@ def lin_free(state, op):
     login, sess, objs = state; k = op[0]; out = [state]
     if k == 'create': out.append((login, sess, objs | {(op[1], op[2], op[3])}))
     elif k == 'destroy': out.append((login, sess, frozenset(o for o in objs if o[0] != op[1])))
-    elif k == 'login': out.append(('U', sess, objs))
+    elif k == 'login': out.append((op[1] if len(op) > 1 else 'U', sess, objs))
     elif k == 'logout': out.append((None, sess, frozenset(o for o in objs if not o[1])))
     elif k == 'open': out.append((login, sess | {op[1]}, objs))
     elif k == 'close':
@@ -402,7 +404,7 @@ def lin_job(job):
         for hno in range(job['histories']):
             # every thread: its own session; ops on session objects with a few SHARED labels so that threads interact
             labels = [b'L%d-%d' % (hno, i) for i in range(3)]; scripts = []; metas = []
-            free = job.get('variant') in ('free', 'handoff')
+            free = job.get('variant') in ('free', 'handoff', 'login-race')
             for t in range(nth):
               S = []; M = []
               if job.get('variant') == 'handoff':
@@ -416,6 +418,15 @@ def lin_job(job):
                         lab = b'H%d-%d-%d' % (hno, t, sk); S.append({'fn': 'C_CreateObject', 's': sref, 'tmpl': x.T({'CKA_CLASS': ck.CKO_DATA, 'CKA_TOKEN': False, 'CKA_PRIVATE': True, 'CKA_LABEL': lab, 'CKA_VALUE': b'x'})}); M.append(('create', lab, True, sid))
                     S.append({'fn': 'C_CloseSession', 's': sref}); M.append(('close', sid))
                     for _ in range(rnd.randrange(0, 4)): S.append({'fn': 'C_GetTokenInfo', 'slot': slot}); M.append(None)      # time without any session, so that another thread's close really is the last one
+                scripts.append(S); metas.append(M); continue
+              if job.get('variant') == 'login-race':
+                # directed: nobody is logged in; every thread has its own read-write session and tries to log in (user or SO), looks, logs out, looks: at most one login can be in force
+                sid = f'{hno}:{t}:0'; S.append({'fn': 'C_OpenSession', 'slot': slot}); M.append(('open', sid)); sref = '$0.h'
+                for rep in range(2):
+                    who = rnd.choice('US'); S.append({'fn': 'C_Login', 's': sref, 'user': 1 if who == 'U' else 0, 'pin': (USER if who == 'U' else SO).hex()}); M.append(('login', who))
+                    S.append({'fn': 'C_GetSessionInfo', 's': sref}); M.append(('info',))
+                    if rnd.random() < 0.7: S.append({'fn': 'C_Logout', 's': sref}); M.append(('logout',)); S.append({'fn': 'C_GetSessionInfo', 's': sref}); M.append(('info',))
+                S.append({'fn': 'C_CloseSession', 's': sref}); M.append(('close', sid))
                 scripts.append(S); metas.append(M); continue
               for sk in range(rnd.randrange(1, 3) if free else 1):
                 sid = f'{hno}:{t}:{sk}'; S.append({'fn': 'C_OpenSession', 'slot': slot}); M.append(('open', sid)); sref = '$%d.h' % (len(S) - 1); mine = {}
@@ -500,7 +511,7 @@ def run(ctx):
         for i in range(ctx.q(1, 6)):
             jobs.append(dict(common, kind='stress', cfg='tsan', wl=wl, threads=ctx.q(6, 8), seed=ctx.seed * 1000 + 500 + i, iters=max(4, ITERS(wl) // 3), locking='cb' if i % 2 == 0 else 'os'))
     for i in range(ctx.q(16, 64)):
-        jobs.append(dict(common, kind='lin', threads=3 + (i % 2), seed=ctx.seed * 1000 + 900 + i, histories=ctx.q(25, 300), locking='cb' if i % 2 == 0 else 'os', variant=['held', 'held', 'free', 'handoff'][i % 4], yield_p=[0.2, 0.5][(i // 4) % 2], yield_us=[120, 1500][(i // 4) % 2]))
+        jobs.append(dict(common, kind='lin', threads=3 + (i % 2), seed=ctx.seed * 1000 + 900 + i, histories=ctx.q(25, 300), locking='cb' if i % 2 == 0 else 'os', variant=['held', 'login-race', 'free', 'handoff'][i % 4], yield_p=[0.2, 0.5][(i // 4) % 2], yield_us=[120, 1500][(i // 4) % 2]))
         if jobs[-1]['variant'] == 'handoff': jobs[-1].update(locking='cb', yield_p=0.04, yield_us=12000, histories=jobs[-1]['histories'] * 3)   # rare but long stalls at lock boundaries (one thread parked while the others run at full speed): finds atomicity windows a few instructions wide
     for part in pmap(dispatch, jobs, max(4, ctx.nproc // 2)): ctx.merge(part)
     lh = ctx.obs.get('lock-order hashes', {}); ctx.extra['distinct_lock_order_hashes'] = len(lh.get('examples', []))
